@@ -178,3 +178,200 @@ func w2fTie(r *Result, dp *DriverPool, rng *rand.Rand, ncases int) {
 	}
 	wg.Wait()
 }
+
+// ---- the xz writer on a failing sink (Model/XzWF.lean) ----
+
+type xzwfCase struct {
+	Op    string   `json:"op"`
+	Cfg   xzCfg    `json:"cfg"`
+	Calls []string `json:"calls"` // W<hex>, C
+	K     int      `json:"fail_at_sink_call"`
+	Mode  int      `json:"mode"`
+}
+
+func xzwfErrName(res callRes) string {
+	switch {
+	case res.Err == "nil":
+		return "ok"
+	case res.Err == "Panic":
+		return "panic"
+	case res.Msg == errSink.Error():
+		return "sink"
+	case res.Msg == "xz: writer already closed" || res.Msg == "lzma: writer closed":
+		return "closed"
+	case res.Msg == lzma.ErrLimit.Error():
+		return "limit"
+	}
+	return "other"
+}
+
+func goXzWF(cs xzwfCase) (calls []string, sink []byte, ncalls int, newErr string) {
+	s := &faultSink{k: cs.K, mode: cs.Mode}
+	var w wcloser
+	var err error
+	if pn := func() (p string) {
+		defer func() {
+			if x := recover(); x != nil {
+				p = fmt.Sprint(x)
+			}
+		}()
+		w, err = cs.Cfg.config().NewWriter(s)
+		return ""
+	}(); pn != "" {
+		return nil, s.buf.Bytes(), s.calls, "panic"
+	}
+	if err != nil {
+		if err.Error() == errSink.Error() {
+			return nil, s.buf.Bytes(), s.calls, "sink"
+		}
+		return nil, s.buf.Bytes(), s.calls, "other"
+	}
+	for _, c := range cs.Calls {
+		var res callRes
+		if c[0] == 'W' {
+			p := unhxe(c[1:])
+			res = guard(func() (int, error) { return w.Write(p) })
+		} else {
+			res = guard(func() (int, error) { return 0, w.Close() })
+		}
+		pn := 0
+		name := xzwfErrName(res)
+		if name == "panic" {
+			pn, name = 1, "ok"
+		}
+		calls = append(calls, fmt.Sprintf("%d:%s:%d@%d", res.N, name, pn, s.buf.Len()))
+		if pn == 1 {
+			break
+		}
+	}
+	return calls, s.buf.Bytes(), s.calls, ""
+}
+
+func xzwfTie(r *Result, dp *DriverPool, rng *rand.Rand, ncases int) {
+	var jobs []xzwfCase
+	for i := 0; i < ncases; i++ {
+		c := pickXzCfg(rng, i)
+		c.Zero = false
+		c.Matcher = i % 2
+		c.DictCap = []int{4096, 4097, 5000, 8192}[rng.Intn(4)]
+		c.BufSize = []int{273, 300, 1000, 4096}[rng.Intn(4)]
+		switch rng.Intn(3) {
+		case 0:
+			c.BlockSize = 0
+		case 1:
+			c.BlockSize = int64(200 + rng.Intn(3000))
+		default:
+			c.BlockSize = int64(1 + rng.Intn(6000))
+		}
+		cs := xzwfCase{Op: "xzwf", Cfg: c}
+		budget := 14000
+		if c.Matcher == 1 {
+			budget = 7000
+		}
+		if c.BlockSize > 0 && c.BlockSize < 200 {
+			budget = int(c.BlockSize) * 30 // few blocks
+		}
+		nw := 1 + rng.Intn(3)
+		for j := 0; j < nw && budget > 0; j++ {
+			var d []byte
+			if rng.Intn(3) == 0 {
+				d = genRandom(rng, 1+rng.Intn(budget))
+			} else {
+				_, d = pickData(rng, budget/2)
+			}
+			budget -= len(d)
+			cs.Calls = append(cs.Calls, "W"+hxe(d))
+		}
+		cs.Calls = append(cs.Calls, "C")
+		if rng.Intn(2) == 0 {
+			cs.Calls = append(cs.Calls, []string{"C", "W" + hxe([]byte("tail"))}[rng.Intn(2)], "C")
+		}
+		_, _, total, _ := goXzWF(cs)
+		r.Add("xzwf_sink_calls", total)
+		step := 1
+		if total > 60 {
+			step = total / 60
+		}
+		for k := 0; k <= total; k++ {
+			if k > 12 && k < total-12 && k%step != 0 {
+				continue
+			}
+			for m := 0; m < 4; m++ {
+				if k == 0 && m > 0 {
+					continue
+				}
+				x := cs
+				x.K, x.Mode = k, m
+				jobs = append(jobs, x)
+			}
+		}
+	}
+	var wg sync.WaitGroup
+	sem := make(chan struct{}, 16)
+	for _, j := range jobs {
+		wg.Add(1)
+		sem <- struct{}{}
+		go func(cs xzwfCase) {
+			defer wg.Done()
+			defer func() { <-sem }()
+			c := cs.Cfg
+			goCalls, sink, ncalls, newErr := goXzWF(cs)
+			blk := c.BlockSize
+			if blk == 0 {
+				blk = 1<<63 - 1
+			}
+			rep, err := dp.Ask(fmt.Sprintf("xzwfrun %d %d %d %d %d %d %d %d %s", c.Matcher, (c.PB*5+c.LP)*9+c.LC, c.DictCap, c.BufSize, blk, checksumOf(c), cs.K, cs.Mode, strings.Join(cs.Calls, " ")))
+			if err != nil {
+				r.Violate("broken-correspondence", "driver", cs, err.Error())
+				return
+			}
+			r.mu.Lock()
+			r.TracesVsImpl++
+			r.mu.Unlock()
+			r.Inc("xzwriter_fault_model_runs")
+			if strings.HasPrefix(rep, "new:") || newErr != "" {
+				if rep != "new:"+newErr {
+					kind := "broken-correspondence"
+					if newErr == "panic" {
+						kind = "counterexample"
+					}
+					r.Violate(kind, "xzwriter-fault-model NewWriter", cs, fmt.Sprintf("NewWriter on the failing sink: go %q, model %q", newErr, truncate(rep, 60)))
+				}
+				return
+			}
+			parts := strings.Split(rep, " | ")
+			if len(parts) < 3 {
+				r.Violate("broken-correspondence", "xzwriter-fault-model: bad driver reply", cs, truncate(rep, 200))
+				return
+			}
+			mCalls := strings.Fields(parts[0])
+			for i := range goCalls {
+				if i >= len(mCalls) || mCalls[i] != goCalls[i] {
+					got := "<none>"
+					if i < len(mCalls) {
+						got = mCalls[i]
+					}
+					kind := "broken-correspondence"
+					if strings.Contains(goCalls[i], ":1@") {
+						kind = "counterexample"
+					}
+					r.Violate(kind, fmt.Sprintf("xzwriter-fault-model call result mode=%d", cs.Mode), cs,
+						fmt.Sprintf("call %d (%s): real xz.Writer on the failing sink returned n:err:panic@sinkLen = %s, the Lean model (Model/XzWF.lean) says %s", i, cs.Calls[i][:1], goCalls[i], got))
+					return
+				}
+			}
+			if len(goCalls) == len(cs.Calls) {
+				if parts[1] != hxe(sink) {
+					r.Violate("broken-correspondence", fmt.Sprintf("xzwriter-fault-model sink bytes mode=%d", cs.Mode), cs,
+						fmt.Sprintf("the sink holds %d bytes, the model predicts %d", len(sink), len(unhxe(parts[1]))))
+					return
+				}
+				if strings.TrimSpace(parts[2]) != fmt.Sprintf("calls=%d", ncalls) {
+					r.Violate("broken-correspondence", fmt.Sprintf("xzwriter-fault-model sink calls mode=%d", cs.Mode), cs,
+						fmt.Sprintf("the real writer issued %d sink calls, the model %s", ncalls, parts[2]))
+				}
+			}
+		}(j)
+	}
+	wg.Wait()
+}
